@@ -36,6 +36,10 @@ def cells(tier):
         # a failing worker while another task sits in a slow (async) cancel callback, then flush
         sc = scen(pool(size + 1), [[A("A", 3)], [cancel(rid("A", 0))], [FLUSH]], outcomes=["ret", "exc"], ecb="plain", ccb="slow", slow_ids=[0])
         out.append(cell(f"s{size + 1} A3 cancel0 flush slowccb0 ret/exc", sc, MON))
+        sc = scen(pool(size), [[A("A", 2)], [A("B", 1), cgroup("B")], [FLUSH]], outcomes=["ret", "exc"])
+        out.append(cell(f"s{size} A2|B1,cgroupB (withdrawn at once)|flush ret/exc", sc, MON))
+        sc = scen(pool(size), [[A("A", 3, fault=[["T", 1]])], [M("M", 3, 2, bad=[["T", 0], 2])], [GAC]], outcomes=["ret", "exc"])
+        out.append(cell(f"s{size} A3 typefault[1]|M3/2 typebad[0],bad[2] gac", sc, MON))
         # raising call sites
         sc = scen(pool(size), [[A("A", 3, fault=[1])], [M("M", 3, 2, bad=[0, 2])], [GAC]], outcomes=["ret", "exc"])
         out.append(cell(f"s{size} A3 fault[1]|M3/2 bad[0,2] gac", sc, MON))
